@@ -502,7 +502,9 @@ class Directory(object):
                 # (e.g. re-hosted after its agent left), keep it.
                 return
             self._computations_data.pop(computation)
-            self.discovery.unregister_computation(computation)
+            # publish=False: the directory must not send an un-publication
+            # to itself, it would erase a later registration of computation.
+            self.discovery.unregister_computation(computation, publish=False)
         except (KeyError, UnknownComputation):
             return
         # notify interested agents
